@@ -11,6 +11,8 @@ namespace Nomt.Finish
 open Nomt Nomt.Api Nomt.Split Nomt.Dlt
 variable {Node VH V : Type}
 
+instance (a : Actuals V) : Decidable (ASorted a) := by unfold ASorted; exact inferInstance
+
 /-! ### the compact list -/
 
 theorem subtrieOps_compact (hv : V → VH) : ∀ a : Actuals V, subtrieOps (compact hv a) = hashW hv (writesOf a)
@@ -300,5 +302,37 @@ theorem finish_ok (load : Key → Outcome Unit (Option V)) (hints : List Key) (h
     simp only [hfu, hnsup, hfin, hrw, tagged, heff, hroot, hw0, Bool.false_eq_true, if_false]
     cases P.witness <;> rfl
 end Ok
+
+/-! ### the delta step -/
+
+/-- the builder never fails when every load succeeds — whatever the hints, the order of the actuals and the priors the
+caller claims -/
+theorem finalize_total {load : Key → Outcome Unit (Option V)} {viewV : Key → Option V}
+    (hl : ∀ k, load k = .ok (viewV k)) (hints : List Key) (a : Actuals V) : ∃ d, Dlt.finalize load hints a = .ok d := by
+  unfold Dlt.finalize
+  obtain ⟨t, ht, _, _⟩ := lookupAll_spec hl [] KSorted.nil hints
+  rw [ht]
+  obtain ⟨f, hf, _, _⟩ := lookupAll_spec hl [] KSorted.nil
+    (a.foldl finStep { tentative := t, final := [], lookups := [] }).lookups
+  simp only [hf]
+  exact ⟨_, rfl⟩
+
+theorem finalizeStep_total {load : Key → Outcome Unit (Option V)} {viewV : Key → Option V}
+    (hl : ∀ k, load k = .ok (viewV k)) (P : Params) (hints : List Key) (a : Actuals V) :
+    ∃ d, finalizeStep P load hints a = .ok d ∧ d.isSome = P.rollback := by
+  unfold finalizeStep
+  cases hrb : P.rollback
+  · exact ⟨none, by simp, rfl⟩
+  · obtain ⟨d, hd⟩ := finalize_total hl hints a
+    exact ⟨some d, by simp [hd], rfl⟩
+
+theorem finalizeStep_spec {load : Key → Outcome Unit (Option V)} {viewV : Key → Option V}
+    (hl : ∀ k, load k = .ok (viewV k)) (P : Params) (hints : List Key) (a : Actuals V)
+    (hr : RtwTruthful viewV a) (hs : ASorted a) :
+    finalizeStep P load hints a = .ok (if P.rollback then some (priorSpec viewV a) else none) := by
+  unfold finalizeStep
+  cases hrb : P.rollback
+  · simp
+  · simp [finalize_eq_priorSpec hl hints a hr hs]
 
 end Nomt.Finish
